@@ -137,4 +137,4 @@ def run(fx, rep):
     rep.floor('S1', 4)
     rep.floor('S2', 4)
     rep.floor('S3', 4)
-    rep.floor('S4', 17, '(17 evaluation sites of args[1]/args[2])')
+    rep.floor('S4', 9, '(17 evaluation sites of args[1]/args[2] today; merged arms may share sites)')
